@@ -409,6 +409,40 @@ def run(run):
                                        'encoding': got, 'prefix_len': k,
                                        'returned': back})
                         break
+            # a send that fails in the sink must not poison the next one
+            vals = list(values)
+            if vals and run.mine(len(name)):
+                class FailingSink(object):
+                    def __init__(self, at):
+                        self.n, self.at = 0, at
+
+                    def send(self, b):
+                        self.n += 1
+                        if self.n >= self.at:
+                            raise BrokenPipeError(32, 'Broken pipe')
+                for at in (1, 2):
+                    v1, v2 = vals[0], vals[-1]
+                    try:
+                        t.send_with_context(v1, FailingSink(at), ctx) \
+                            if ctx is not None else t.send(v1, FailingSink(at))
+                    except Exception:
+                        pass
+                    sink = Sink()
+                    try:
+                        t.send_with_context(v2, sink, ctx) \
+                            if ctx is not None else t.send(v2, sink)
+                    except Exception:
+                        continue
+                    exp = ref(v2)
+                    ok = exp is None or (sink.value() in exp if isinstance(
+                        exp, set) else sink.value() == exp)
+                    run.count('sends_after_failed_send')
+                    if not ok:
+                        run.violation('send/%s/after-failed-send' % name,
+                                      'an encoding written after an earlier '
+                                      'send() failed in the sink is wrong',
+                                      {'type': name, 'failed_value': v1,
+                                       'value': v2, 'got': sink.value()})
             if run.shard == 0 and len(run.samples) < 8:
                 vs = list(values)[:2]
                 run.sample({'type': name, 'values': vs})
